@@ -19,7 +19,7 @@ theorem panic_sites_guarded :
 theorem goroutines_guarded :
     goSites = ["BuildFromAliasedTable:go-forwarder#1", "ExistExpr:go-forwarder#1", "FunExpr:go-recovered#3",
                "Join.ParallelHashJoinFunc:go-recovered#1", "Join.ParallelJoinFunc:go-recovered#1",
-               "SubqueryExpr:go-forwarder#1"] := by decide
+               "Query.adopt:go-forwarder#1", "SubqueryExpr:go-forwarder#1"] := by decide
 
 /-- the API entry points and the executor recover: `New` (build-time code incl. joins, unions, CTE
     registration), `Exec` (post-processors), `exec` (row evaluation), `Sort` -/
